@@ -54,8 +54,8 @@ type Case struct {
 
 func genCred(t *rapid.T) Cred {
 	return Cred{
-		User:     rapid.SampledFrom([]string{"right", "right", "wrong", "absent", "int", "other"}).Draw(t, "user"),
-		Token:    rapid.SampledFrom([]string{"right", "right", "wrong", "absent", "int"}).Draw(t, "token"),
+		User:     rapid.SampledFrom([]string{"right", "right", "wrong", "absent", "int", "other", "raw-right", "bytes-right"}).Draw(t, "user"),
+		Token:    rapid.SampledFrom([]string{"right", "right", "wrong", "absent", "int", "raw-right", "bytes-right"}).Draw(t, "token"),
 		Forged:   rapid.SampledFrom([]int{0, 0, 3, 3, 2, 1}).Draw(t, "forged"),
 		ForgeInt: rapid.Bool().Draw(t, "forgeint"),
 		Extra:    rapid.SampledFrom([]int{0, 0, 1, 5, 40}).Draw(t, "extra"),
@@ -67,7 +67,7 @@ func genCase(t *rapid.T) Case {
 	n := rapid.IntRange(2, 18).Draw(t, "n")
 	for i := 0; i < n; i++ {
 		op := Op{Conn: rapid.IntRange(0, c.Conns-1).Draw(t, "conn")}
-		op.Kind = rapid.SampledFrom([]string{"frame", "frame", "frame", "frame", "auth", "auth", "close", "goodauth", "probecall", "probecall", "shiftedauth"}).Draw(t, "kind")
+		op.Kind = rapid.SampledFrom([]string{"frame", "frame", "frame", "frame", "auth", "auth", "close", "goodauth", "probecall", "probecall", "shiftedauth", "vanishauth"}).Draw(t, "kind")
 		op.Type = rapid.OneOf(rapid.Uint8Range(1, 8), rapid.Uint8Range(1, 8), rapid.Uint8Range(1, 8), rapid.Uint8()).Draw(t, "type")
 		op.Service = rapid.SampledFrom([]string{"zero", "directory", "probe", "probe", "probe", "random"}).Draw(t, "service")
 		op.Object = rapid.SampledFrom([]uint32{1, 1, 0, 2, 0xffffffff}).Draw(t, "object")
@@ -129,6 +129,10 @@ func capmap(c Cred, conn int) (payload []byte, user, token string, typed bool) {
 	case "int":
 		entries["auth_user"] = ref.Dyn{T: ref.Scalar(ref.KInt32), V: int32(7)}
 		typed = false
+	case "raw-right", "bytes-right":
+		// not a string, but a value which is laid out like the right string
+		entries["auth_user"] = stringLike(c.User, userOf(conn))
+		typed = false
 	}
 	switch c.Token {
 	case "right":
@@ -146,6 +150,9 @@ func capmap(c Cred, conn int) (payload []byte, user, token string, typed bool) {
 	case "int":
 		entries["auth_token"] = ref.Dyn{T: ref.Scalar(ref.KInt32), V: int32(7)}
 		typed = false
+	case "raw-right", "bytes-right":
+		entries["auth_token"] = stringLike(c.Token, passOf(conn))
+		typed = false
 	}
 	if c.Forged != 0 {
 		if c.ForgeInt {
@@ -158,6 +165,38 @@ func capmap(c Cred, conn int) (payload []byte, user, token string, typed bool) {
 		entries[fmt.Sprintf("extra%d", i)] = netkit.Str("x")
 	}
 	return netkit.CapMap(entries), user, token, typed
+}
+
+// stringLike builds a dynamic value which is not a string but whose content
+// is serialized exactly like the string s: a raw buffer, or a list of int8.
+func stringLike(kind, s string) ref.Dyn {
+	if kind == "raw-right" {
+		return ref.Dyn{T: ref.Scalar(ref.KRaw), V: []byte(s)}
+	}
+	l := ref.List{}
+	for _, b := range []byte(s) {
+		l = append(l, int8(b))
+	}
+	return ref.Dyn{T: ref.ListOf(ref.Scalar(ref.KInt8)), V: l}
+}
+
+// gated is an authenticator which knows one more user, "slow": the check of
+// its credentials (which are right) lasts until the harness lets it end.
+type gated struct {
+	inner   bus.Authenticator
+	entered chan struct{}
+	release chan struct{}
+	left    chan struct{}
+}
+
+func (g *gated) Authenticate(user, token string) bool {
+	if user != "slow" {
+		return g.inner.Authenticate(user, token)
+	}
+	g.entered <- struct{}{}
+	<-g.release
+	defer func() { g.left <- struct{}{} }()
+	return token == "slowpass"
 }
 
 const bound = 10 * time.Second
@@ -185,6 +224,10 @@ func checkCase(c Case) error {
 	if c.Auth == "no" {
 		auth = bus.No{}
 	}
+	gate := &gated{inner: auth, entered: make(chan struct{}, 8), release: make(chan struct{}), left: make(chan struct{}, 8)}
+	if c.Auth != "no" {
+		auth = gate
+	}
 	env, err := netkit.StartServer(auth)
 	if err != nil {
 		return vt.Violationf("C06:setup", "server: %v", err)
@@ -205,7 +248,7 @@ func checkCase(c Case) error {
 	}
 	sendState := map[string][]string{} // hello/ping argument -> connection states when a frame carrying it was sent
 	tagN := 0
-	preAuthFrames, crafted, forged, wrongTyped, nonCall, delivered := 0, 0, 0, 0, 0, 0
+	preAuthFrames, crafted, forged, wrongTyped, nonCall, delivered, vanished := 0, 0, 0, 0, 0, 0, 0
 	serviceID := func(s string) uint32 {
 		switch s {
 		case "zero":
@@ -225,6 +268,61 @@ func checkCase(c Case) error {
 		if op.Kind == "close" {
 			cs.raw.Close()
 			cs.state = "closed"
+			continue
+		}
+		if op.Kind == "vanishauth" {
+			// the connection presents right credentials whose check takes time and
+			// vanishes before the verdict; the verdict falls when other connections
+			// have arrived since. It is the verdict on a connection which is gone:
+			// a newcomer has presented nothing and is refused like any other.
+			if c.Auth == "no" || cs.state != "fresh" {
+				continue
+			}
+			entries := map[string]ref.Dyn{"ClientServerSocket": {T: ref.Scalar(ref.KBool), V: true}, "auth_user": netkit.Str("slow"), "auth_token": netkit.Str("slowpass")}
+			if err := cs.raw.Send(netkit.Frame{Type: netkit.Call, ID: cs.raw.NextID(), Service: 0, Object: 0, Action: 8, Payload: netkit.CapMap(entries)}); err != nil {
+				cs.state = "closed"
+				continue
+			}
+			select {
+			case <-gate.entered:
+			case <-time.After(bound):
+				return vt.Violationf("C06:auth-no-answer", "step %d: the authenticator was not consulted within %v", i, bound)
+			}
+			cs.raw.Close()
+			cs.state = "closed"
+			time.Sleep(time.Duration(5+op.Object%40) * time.Millisecond) // the server notices the loss
+			var newcomers []*netkit.RawClient
+			for k := 0; k < 1+int(op.Action%3); k++ {
+				raw, err := netkit.Dial(env.Addr)
+				if err != nil {
+					return vt.Violationf("C06:setup", "dial: %v", err)
+				}
+				defer raw.Close()
+				newcomers = append(newcomers, raw)
+			}
+			time.Sleep(2 * time.Millisecond) // ... and meets the newcomers
+			gate.release <- struct{}{}
+			<-gate.left
+			time.Sleep(2 * time.Millisecond)
+			for _, raw := range newcomers {
+				tagN++
+				tag := fmt.Sprintf("quiet:newcomer%d-%d", op.Conn, tagN)
+				sendState[tag] = append(sendState[tag], "fresh")
+				f := netkit.Frame{Type: netkit.Call, ID: raw.NextID(), Service: svc.ServiceID(), Object: 1, Action: 100, Payload: netkit.StringPayload(tag)}
+				from := len(raw.Frames())
+				if err := raw.Send(f); err != nil {
+					continue
+				}
+				if _, _, ok := raw.WaitFrame(from, func(x netkit.Frame) bool { return x.ID == f.ID && x.Type == netkit.Error }, bound); !ok {
+					return vt.Violationf("C06:no-error-reply:newcomer", "step %d: a connection which never presented credentials (it arrived while the credentials of a connection already gone were being checked) called service %d and was not answered with an error frame (frames: %v)", i, f.Service, raw.Frames()[from:])
+				}
+				if !raw.WaitEOF(bound) {
+					return vt.Violationf("C06:not-closed:newcomer", "step %d: newcomer connection still open %v after an unauthenticated call", i, bound)
+				}
+			}
+			preAuthFrames++
+			crafted++
+			vanished++
 			continue
 		}
 		f := netkit.Frame{Type: op.Type, ID: cs.raw.NextID(), Service: serviceID(op.Service), Object: op.Object, Action: op.Action}
@@ -369,6 +467,9 @@ func checkCase(c Case) error {
 	}
 	if delivered > 0 {
 		labels = append(labels, "authenticated-delivery")
+	}
+	if vanished > 0 {
+		labels = append(labels, "vanished-during-credential-check")
 	}
 	key, _ := json.Marshal(c)
 	vt.Case(nontrivial, string(key), labels...)
